@@ -5,6 +5,7 @@ From AV Require Import Generated.Table Spec.Utf8 Spec.Vt Spec.Strip Model.Base M
   Proofs.TableFacts Proofs.StripMachine Proofs.StripSim Proofs.StripStr Proofs.StripPieces Proofs.StripVisible
   Generated.StripFn Proofs.StripGen.
 From AV Require Import Spec.Io Model.Stream Generated.StreamFn Proofs.StreamGen.
+From AV Require Import Model.Utf8parse Model.Imp Generated.Utf8parseFn Proofs.Utf8parseGen Proofs.Utf8parseStrip.
 Import ListNotations.
 Local Open Scope N_scope.
 
@@ -125,3 +126,33 @@ Theorem c01_translated_never_stream_is_model :
   match g_ss_run x ops with Some (x1, rs) => Some (ss_state x1, ss_raw x1, rs) | None => None end
   = run_ops b (auto_mode CNever d) (ss_state x) (ss_raw x) ops.
 Proof. exact translated_never_is_model. Qed.
+
+(* ==== the third-party decoder `utf8parse` ====================================================
+   Generated/Utf8parseFn.v is written on every run by tools/gen_fn_utf8parse.py from the registry
+   source of the `utf8parse` version <repo>/Cargo.lock pins (the unpacked source is compared with the
+   archive whose sha256 is the lock file's checksum, and with what `cargo metadata` says the harness
+   crates build).  `State::advance`, `Parser::{new, perform_action, advance}` and the derived Default
+   are the hand model Model/Utf8parse.v -- the decoder every theorem above goes through -- for EVERY
+   state, accumulated code point and byte.  A `Receiver` is the list of calls it gets. *)
+Theorem c01_translated_utf8parse_state_advance :
+  forall s b, g_u8_state_advance s b = Some (u8_advance s b).
+Proof. exact g_u8_state_advance_eq. Qed.
+
+Theorem c01_translated_utf8parse_advance :
+  forall p r b, g_u8_parser_advance p r b =
+    Some (fst (u8_parser_advance p b), r ++ u8_events (snd (u8_parser_advance p b))).
+Proof. exact g_u8_parser_advance_eq. Qed.
+
+Theorem c01_translated_utf8parse_new :
+  g_u8_parser_new = u8_new /\ g_u8_parser_default = u8_new.
+Proof. exact (conj g_u8_parser_new_eq g_u8_parser_default_eq). Qed.
+
+(* the way Generated/StripFn.v consumes the decoder (hand model first, then the translated Receiver method its
+   answer names) is the translated decoder on a call-recording receiver, the calls delivered in order to the
+   translated methods of anstream's VtUtf8Receiver *)
+Theorem c01_translated_utf8_add_over_translated_decoder :
+  forall u b,
+    ('(u', evs) <- g_u8_parser_advance (u8p_inner u) [] b ;;
+     Some (set_u8p_inner u u', u8_deliver g_receiver_codepoint g_receiver_invalid_sequence evs false))
+    = Some (g_utf8_add u b).
+Proof. exact strip_utf8_add_over_translated_decoder. Qed.
